@@ -161,7 +161,6 @@ fn run_variant<const N: usize, P: Pad>(
 }
 
 pub fn nonint<const N: usize, P: Pad>(ctx: &mut Ctx) {
-    ctx.panic_props = vec!["C04", "C11", "C07"];
     let thorough = ctx.args.thorough;
     let poke_on = !ctx.args.flag("nopoke");
     let lean = ctx.args.flag("lean");
